@@ -11,14 +11,26 @@ if os.path.exists(os.path.join(VERIF, "oracles", "known_fns.json")):
     os.rename(os.path.join(VERIF, "oracles", "known_fns.json"), os.path.join(VERIF, "oracles", "known_fns.json.bak"))
 from hv import core  # noqa: E402
 
+from hv import inline  # noqa: E402
+
 fns = set()
+combs = {}
 for cfg in ("A", "B", "C", "D", "E"):
     p = core.load(cfg)
     for path, b in list(p.bodies.items()) + list(p.elab.items()):
         if b.kind in ("fn", "method"):
             fns.add(path)
+        owner = inline.owner_fn(path)
+        for blk in b.raw["blocks"]:
+            t = blk["term"]
+            if t and t["k"] == "call":
+                c = inline.combinator_of(t)
+                if c:
+                    combs.setdefault(owner, set()).add(c)
 with open(os.path.join(VERIF, "oracles", "known_fns.json"), "w") as fh:
-    json.dump({"_comment": "function bodies of the pinned tree (after the fix: commits); see hv/inline.py", "functions": sorted(fns)}, fh, indent=0)
+    json.dump({"_comment": "function bodies of the pinned tree (after the fix: commits) and the Option/Result combinators each of them "
+                           "(with its closures) already uses; see hv/inline.py", "functions": sorted(fns),
+               "combinators": {k: sorted(v) for k, v in sorted(combs.items())}}, fh, indent=0)
 try:
     os.remove(os.path.join(VERIF, "oracles", "known_fns.json.bak"))
 except OSError:
